@@ -269,6 +269,10 @@ fn url_strategy() -> impl Strategy<Value = String> {
         1 => "[ -~]{0,240}",
         1 => Just(String::new()),
         1 => "[a-z]{5,7}",
+        // around the longest URL the option can carry (255 units of 8 octets, two of them the
+        // option's head: 2038), and around twice that
+        1 => prop_oneof![Just(2030usize), Just(2037), Just(2038), Just(2039), Just(2040), Just(2046), Just(2047), Just(2048), Just(4086), Just(4090)]
+            .prop_map(|n| format!("https://portal.example/{}", "u".repeat(n - 23))),
     ]
 }
 
@@ -881,6 +885,10 @@ pub fn judge_ra(c: &RaCase, mtu_param: Option<u32>, ra: &Ra, unrepresentable: bo
     match (&want_url, got_u.as_slice()) {
         (None, []) => {}
         (Some(w), [g]) if g.as_slice() == w.as_bytes() => {}
+        // a URL the option cannot carry (more than 2038 octets): rejected (no option) or clamped
+        // to a prefix of it - anything but a wrapped length, which the decoder has refused by now
+        (Some(w), []) if w.len() > 2038 => out.class("url-longer-than-the-option-can-carry"),
+        (Some(w), [g]) if w.len() > 2038 && w.as_bytes().starts_with(g.as_slice()) => out.class("url-longer-than-the-option-can-carry"),
         _ => {
             out.fail("C17:option:captive-portal", format!("expected {:?}, got {:?}", want_url, got_u.iter().map(|u| String::from_utf8_lossy(u).to_string()).collect::<Vec<_>>()));
             return;
